@@ -21,12 +21,28 @@
         visited path and fuel; the model's fuel bound (check_no_fuel).
      E. The full statement C01_full_statement is REFUTED by the faithful model with the two
         witnesses of checks/C01.findings.json (each raises its trigger flag).
-   What is NOT proved (see the comment before C01_full_statement in Check/V1Proofs.v): that a
-   denial implies value F (completeness of the path-based cycle cut), hence soundness of
-   `allowed` under a difference, and the characterisation of condition errors. *)
+     F. (second part, Check/V1Exact.v, building on Check/QueryCacheProofs.v) Every DECISION is
+        the reference semantics' decision: for stratified models with union, intersection,
+        exclusion and conditions, any fuel and depth limit, a run that did not drop a condition
+        error (tr_swallow = false): `allowed` => holds3 = T and `denied without cycle flag` =>
+        holds3 = F (check_exact_partial, C01_decision_correct_partial, C01_full_partial).  The
+        F1 trigger need not be excluded: a cycle cut only ever yields "denied WITH cycle flag",
+        which is kept apart from a definite denial by every reducer.  For models without
+        difference `allowed` is exact (C01_allowed_exact_positive: completeness through the
+        path-free unfolding and the path-cut completeness theorem of C08), so a top-level
+        "denied with cycle flag" is then a correct denial (C01_cycle_denial_positive); for every
+        model it means that no unfolding up to the fuel / depth determines the answer
+        (top_no_decision_undetermined).  Condition errors come from a valid tuple whose
+        condition cannot be evaluated; depth errors from reaching the limit.
+   What is NOT proved: completeness under a difference (holds3 = T => `allowed`, and holds3 = F
+   => some denial) for stratified models -- it is FALSE of the code as it is (F1: a cycle in the
+   subtract branch turns `allowed` into "denied with cycle flag"); the exact statement that
+   would hold under tr_excl_sub_cycle = false and an error-free run is not proved.  Hence a
+   top-level "denied with cycle flag" of a model WITH difference is not characterised beyond
+   top_no_decision_undetermined. *)
 From Coq Require Import List Bool Arith NArith Permutation.
 From OFGA Require Import Sem.B3 Sem.B3Proofs Sem.Vocab Sem.Valid Sem.Semantics Sem.SemProofs
-  Check.V1 Check.V1Proofs.
+  Check.V1 Check.V1Proofs Check.QueryCacheProofs Check.V1Exact.
 Import ListNotations.
 Open Scope N_scope.
 
@@ -502,3 +518,203 @@ Print Assumptions C01_refuted_cond_err_swallowed.
 Theorem C01_full_refuted : ~ C01_full_statement.
 Proof. exact V1Proofs.C01_full_refuted. Qed.
 Print Assumptions C01_full_refuted.
+
+(* ================================================================== *)
+(* F. every decision is the reference semantics' decision               *)
+(* ================================================================== *)
+
+(* the stratified reference valuation is a fixpoint of the one-step operator on ALL atoms *)
+Theorem stratified_lfp_fixpoint_all : forall m conds store subj atoms,
+  stratified m = true ->
+  converged m conds store subj atoms = true ->
+  universe_ok m conds store subj atoms = true ->
+  no_empty_inter_model m = true ->
+  forall a, eval_atom m conds store subj (fst (lfp m conds store subj atoms)) a =
+            vget (fst (lfp m conds store subj atoms)) a.
+Proof. exact V1Exact.stratified_lfp_fixpoint_all. Qed.
+Print Assumptions stratified_lfp_fixpoint_all.
+
+(* no dependency of a relation is above it; one under a subtract is strictly below *)
+Theorem deps_level : forall m,
+  stratified m = true ->
+  forall t r rd t' r' neg,
+    get_relation m t r = Some rd ->
+    In (t', r', neg) (deps m t rd false (rd_rw rd)) ->
+    (lvl_get (final_levels m) t' r' + (if neg then 1 else 0) <= lvl_get (final_levels m) t r)%nat.
+Proof. exact V1Exact.deps_level. Qed.
+Print Assumptions deps_level.
+Example deps_level_ex :
+  stratified f1_model = true /\
+  lvl_get (final_levels f1_model) 4 4 = 1%nat /\ lvl_get (final_levels f1_model) 4 3 = 0%nat /\
+  deps f1_model 4 (mk_rel 4 (Diff (Computed 2) (Computed 3)) []) false (Diff (Computed 2) (Computed 3))
+    = [(4, 2, false); (4, 3, true)].
+Proof. repeat split; vm_compute; reflexivity. Qed.
+
+(* definite outcomes are sound in EVERY total fixpoint, for every model, fuel, depth, path *)
+Theorem check_definite_sound : forall m conds store subj pathx maxdepth v,
+  (forall a, eval_atom m conds store subj v a = vget v a) ->
+  keys_unique store ->
+  (forall o r, rel_defined m (otype o) r = true -> path_exists pathx (otype o) r = false ->
+               atomval subj v o r = F) ->
+  forall fuel depth visited o r,
+    swf (check m conds store subj pathx maxdepth fuel depth visited o r) ->
+    sound_set (fst (check m conds store subj pathx maxdepth fuel depth visited o r)) (atomval subj v o r).
+Proof. exact V1Exact.check_definite_sound. Qed.
+Print Assumptions check_definite_sound.
+
+Theorem keys_ok_unique : forall l, keys_ok l = true -> keys_unique l.
+Proof. exact V1Exact.keys_ok_unique. Qed.
+Print Assumptions keys_ok_unique.
+
+Theorem check_exact_partial :
+  forall m conds store subj pathx atoms maxdepth fuel o r,
+    C01_setting m conds store subj pathx atoms ->
+    tr_swallow (snd (check_top m conds store subj pathx maxdepth fuel o r)) = false ->
+    (In AT (fst (check_top m conds store subj pathx maxdepth fuel o r)) ->
+       holds3 m conds store subj atoms o r = T) /\
+    (In AFn (fst (check_top m conds store subj pathx maxdepth fuel o r)) ->
+       holds3 m conds store subj atoms o r = F).
+Proof. exact V1Exact.check_exact_partial. Qed.
+Print Assumptions check_exact_partial.
+
+Theorem C01_decision_correct_partial :
+  forall m conds store subj pathx atoms maxdepth fuel o r,
+    C01_setting m conds store subj pathx atoms ->
+    tr_swallow (snd (check_top m conds store subj pathx maxdepth fuel o r)) = false ->
+    (fst (check_top m conds store subj pathx maxdepth fuel o r) = [AT] ->
+       holds3 m conds store subj atoms o r = T) /\
+    (fst (check_top m conds store subj pathx maxdepth fuel o r) = [AFn] ->
+       holds3 m conds store subj atoms o r = F).
+Proof. exact V1Exact.C01_decision_correct_partial. Qed.
+Print Assumptions C01_decision_correct_partial.
+(* a model WITH exclusion (doc.viewer: owner but not blocked): user:1 is owner and not blocked
+   => {allowed}, reference T; user:2 is owner and blocked through group:1 => {denied}, reference F;
+   no trigger is raised *)
+Example C01_decision_correct_ex :
+  C01_setting f1_model [] dx_store dx_subj1 f1_pathx dx_atoms /\
+  C01_setting f1_model [] dx_store dx_subj2 f1_pathx dx_atoms /\
+  check_top f1_model [] dx_store dx_subj1 f1_pathx 25 30 (mk_obj 4 1) 4 = ([AT], notrig) /\
+  holds3 f1_model [] dx_store dx_subj1 dx_atoms (mk_obj 4 1) 4 = T /\
+  check_top f1_model [] dx_store dx_subj2 f1_pathx 25 30 (mk_obj 4 1) 4 = ([AFn], notrig) /\
+  holds3 f1_model [] dx_store dx_subj2 dx_atoms (mk_obj 4 1) 4 = F.
+Proof.
+  split; [apply C01_setting_intro; vm_compute; reflexivity|].
+  split; [apply C01_setting_intro; vm_compute; reflexivity|].
+  repeat split; vm_compute; reflexivity.
+Qed.
+(* the hypothesis tr_swallow = false cannot be dropped, in either direction: on the F2 witness
+   the run raises the flag, doc:1#blocked is {denied} and doc:1#allowed is {allowed}, while the
+   reference value of both is E *)
+Example C01_decision_swallow_needed_ex :
+  C01_setting f2_model [1] f2_store f2_subj f2_pathx f2_atoms /\
+  check_top f2_model [1] f2_store f2_subj f2_pathx 25 30 (mk_obj 3 1) 3 =
+    ([AFn], {| tr_excl_sub_cycle := false; tr_swallow := true |}) /\
+  holds3 f2_model [1] f2_store f2_subj f2_atoms (mk_obj 3 1) 3 = E.
+Proof.
+  split; [apply C01_setting_intro; vm_compute; reflexivity|]. split; vm_compute; reflexivity.
+Qed.
+
+(* C01_full_statement minus exactly the two findings *)
+Theorem C01_full_partial :
+  forall m conds store subj pathx atoms maxdepth fuel o r x,
+    C01_setting m conds store subj pathx atoms ->
+    tr_swallow (snd (check_top m conds store subj pathx maxdepth fuel o r)) = false ->
+    x <> AFc ->
+    In x (fst (check_top m conds store subj pathx maxdepth fuel o r)) ->
+    decision_agrees x (holds3 m conds store subj atoms o r).
+Proof. exact V1Exact.C01_full_partial. Qed.
+Print Assumptions C01_full_partial.
+(* the F1 witness satisfies every hypothesis except x <> AFc *)
+Example C01_full_partial_ex :
+  C01_setting f1_model [] f1_store f1_subj f1_pathx f1_atoms /\
+  tr_swallow (snd (check_top f1_model [] f1_store f1_subj f1_pathx 25 30 (mk_obj 4 1) 4)) = false /\
+  fst (check_top f1_model [] f1_store f1_subj f1_pathx 25 30 (mk_obj 4 1) 4) = [AFc].
+Proof.
+  split; [apply C01_setting_intro; vm_compute; reflexivity|]. split; vm_compute; reflexivity.
+Qed.
+
+(* positive fragment: the reference semantics grants => Check answers `allowed` *)
+Theorem lfp_T_unfolded : forall m conds store subj pathx,
+  keys_unique store -> pathx_full m pathx = true -> positive_model m = true ->
+  forall atoms o r,
+    holds3 m conds store subj atoms o r = T ->
+    fst (unfoldB m conds store subj pathx (S (round_fuel atoms)) o r) = true.
+Proof. exact V1Exact.lfp_T_unfolded. Qed.
+Print Assumptions lfp_T_unfolded.
+
+Theorem check_complete_allowed_positive : forall m conds store subj pathx,
+  keys_unique store -> pathx_full m pathx = true -> positive_model m = true ->
+  forall atoms maxdepth fuel o r,
+    (S (round_fuel atoms) <= fuel)%nat -> (S (round_fuel atoms) <= maxdepth)%nat ->
+    holds3 m conds store subj atoms o r = T ->
+    In AT (fst (check_top m conds store subj pathx maxdepth fuel o r)).
+Proof. exact V1Exact.check_complete_allowed_positive. Qed.
+Print Assumptions check_complete_allowed_positive.
+
+Theorem C01_allowed_exact_positive :
+  forall m conds store subj pathx atoms maxdepth fuel o r,
+    C01_setting m conds store subj pathx atoms ->
+    positive_model m = true ->
+    (S (round_fuel atoms) <= fuel)%nat -> (S (round_fuel atoms) <= maxdepth)%nat ->
+    (In AT (fst (check_top m conds store subj pathx maxdepth fuel o r)) <->
+     holds3 m conds store subj atoms o r = T).
+Proof. exact V1Exact.C01_allowed_exact_positive. Qed.
+Print Assumptions C01_allowed_exact_positive.
+Example C01_allowed_exact_positive_ex :
+  C01_setting ex_model [1] ex_store ex_subj ex_pathx ex_atoms /\ positive_model ex_model = true /\
+  round_fuel ex_atoms = 18%nat /\
+  fst (check_top ex_model [1] ex_store ex_subj ex_pathx 19 19 (mk_obj 4 1) 6) = [AT] /\
+  holds3 ex_model [1] ex_store ex_subj ex_atoms (mk_obj 4 1) 6 = T /\
+  fst (check_top ex_model [1] ex_store ex_subj ex_pathx 19 19 (mk_obj 4 1) 3) = [AFn] /\
+  holds3 ex_model [1] ex_store ex_subj ex_atoms (mk_obj 4 1) 3 = F.
+Proof.
+  split; [apply C01_setting_intro; vm_compute; reflexivity|]. repeat split; vm_compute; reflexivity.
+Qed.
+
+(* the top-level cycle flag *)
+Theorem top_no_decision_undetermined :
+  forall m conds store subj pathx maxdepth fuel o r h,
+    ~ In AT (fst (check_top m conds store subj pathx maxdepth fuel o r)) ->
+    ~ In AFn (fst (check_top m conds store subj pathx maxdepth fuel o r)) ->
+    (h <= fuel)%nat -> (h <= maxdepth)%nat ->
+    unfoldB m conds store subj pathx h o r = bot4.
+Proof. exact V1Exact.top_no_decision_undetermined. Qed.
+Print Assumptions top_no_decision_undetermined.
+(* doc:1#blocked@user:1 on the F1 store: group:1#member and team:2#member only refer to each
+   other; Check says "denied, cycle", no unfolding determines the value, the least fixpoint is F *)
+Example top_no_decision_ex :
+  check_top f1_model [] f1_store f1_subj f1_pathx 25 30 (mk_obj 4 1) 3 = ([AFc], notrig) /\
+  unfoldB f1_model [] f1_store f1_subj f1_pathx 25 (mk_obj 4 1) 3 = bot4 /\
+  holds3 f1_model [] f1_store f1_subj f1_atoms (mk_obj 4 1) 3 = F.
+Proof. repeat split; vm_compute; reflexivity. Qed.
+
+Theorem C01_cycle_denial_positive :
+  forall m conds store subj pathx atoms maxdepth fuel o r,
+    positive_model m = true -> keys_ok store = true -> pathx_full m pathx = true ->
+    (S (round_fuel atoms) <= fuel)%nat -> (S (round_fuel atoms) <= maxdepth)%nat ->
+    fst (check_top m conds store subj pathx maxdepth fuel o r) = [AFc] ->
+    holds3 m conds store subj atoms o r <> T.
+Proof. exact V1Exact.C01_cycle_denial_positive. Qed.
+Print Assumptions C01_cycle_denial_positive.
+(* group:2#member@user:2 in the positive example: group:1 and group:2 are members of each other
+   and only user:1 is a direct member *)
+Example C01_cycle_denial_positive_ex :
+  fst (check_top ex_model [1] ex_store (SObj (mk_obj 1 2)) ex_pathx 19 19 (mk_obj 2 2) 1) = [AFc] /\
+  holds3 ex_model [1] ex_store (SObj (mk_obj 1 2)) ex_atoms (mk_obj 2 2) 1 = F.
+Proof. split; vm_compute; reflexivity. Qed.
+
+(* errors *)
+Theorem check_cond_error_witness : forall m conds store subj pathx maxdepth fuel depth visited o r,
+  In AEc (fst (check m conds store subj pathx maxdepth fuel depth visited o r)) ->
+  has_cond_error m conds store.
+Proof. exact V1Exact.check_cond_error_witness. Qed.
+Print Assumptions check_cond_error_witness.
+Theorem check_depth_error_reached : forall m conds store subj pathx maxdepth fuel depth visited o r,
+  In AEd (fst (check m conds store subj pathx maxdepth fuel depth visited o r)) ->
+  (depth <= maxdepth /\ maxdepth - depth < fuel)%nat.
+Proof. exact V1Exact.check_depth_error_reached. Qed.
+Print Assumptions check_depth_error_reached.
+Example check_errors_ex :
+  fst (check_top f2_model [1] (tl f2_store) f2_subj f2_pathx 25 30 (mk_obj 3 1) 3) = [AEc] /\
+  fst (check_top ex_model [1] ex_store ex_subj ex_pathx 1 30 (mk_obj 4 1) 2) = [AEd].
+Proof. split; vm_compute; reflexivity. Qed.
